@@ -905,9 +905,13 @@ def _side_by_distance(dists):
 
 def _gen_clamp_match(rng, cls):
     spec = mesh_spec(rng)
+    if cls == "near-miss-in-a-model-far-from-the-origin":
+        # coordinates of a few thousand units: a miss of a millimetre is far below 1e-5 of the coordinates, far above TOL
+        off = [rng.choice([-1, 1]) * rng.uniform(2000, 9000) for _ in range(3)]
+        spec = dict(spec, blocks=[[[x + o for x, o in zip(pt, off)] for pt in b] for b in spec["blocks"]])
     node = rng.choice(mesh_nodes(spec))
     mag = {"at-vertex": 0.0, "within-tolerance": rng.choice([1e-9, 1e-8]), "near-miss": rng.choice([1e-3, 1e-2, 0.1]),
-           "far": rng.uniform(3, 10)}[cls]
+           "far": rng.uniform(3, 10), "near-miss-in-a-model-far-from-the-origin": rng.choice([3e-4, 1e-3, 5e-3])}[cls]
     return {"mesh": spec, "position": _off(rng, node, mag) if mag else list(node)}
 
 
@@ -924,7 +928,8 @@ def _prep_clamp_match(cb, p):
 
 
 Row("Optimizer.add_clamp:matches-a-vertex", "clamp-matches-no-vertex",
-    {"at-vertex": "accept", "within-tolerance": "accept", "near-miss": "reject", "far": "reject"},
+    {"at-vertex": "accept", "within-tolerance": "accept", "near-miss": "reject", "far": "reject",
+     "near-miss-in-a-model-far-from-the-origin": "reject"},
     _gen_clamp_match, lambda p: _side_by_distance([_nearest(mesh_nodes(p["mesh"]), p["position"])]), _prep_clamp_match)
 
 
